@@ -25,6 +25,18 @@ theorem C03_holdout_preserves_mappings (s k t : Screen) (sel : List Bool) (h : h
     (k.tmap = s.tmap ∧ k.smap = s.smap) ∧ (t.tmap = s.tmap ∧ t.smap = s.smap) :=
   ⟨(holdout_maps h).1.2, (holdout_maps h).2.2⟩
 
+/-- ... and their rows are exactly the parent's rows outside / inside the selection, in order (so "the same
+    experiment" in a half and in the prepared screen is the same (sample, treatments, doses) row); the held-out
+    half is marked all observed, the training half keeps its mask -/
+theorem C03_holdout_rows (s k t : Screen) (sel : List Bool) (h : holdout s sel = .ok (k, t)) :
+    (k.tnames = maskFilter s.tnames (sel.map (!·)) ∧ k.tdoses = maskFilter s.tdoses (sel.map (!·))
+      ∧ k.snames = maskFilter s.snames (sel.map (!·)) ∧ k.pnames = maskFilter s.pnames (sel.map (!·))
+      ∧ k.obs = maskFilter s.obs (sel.map (!·)) ∧ k.mask = maskFilter s.mask (sel.map (!·)))
+    ∧ (t.tnames = maskFilter s.tnames sel ∧ t.tdoses = maskFilter s.tdoses sel
+      ∧ t.snames = maskFilter s.snames sel ∧ t.pnames = maskFilter s.pnames sel
+      ∧ t.obs = maskFilter s.obs sel ∧ t.mask = List.replicate (sel.count true) true) :=
+  holdout_rows h
+
 /-- what "the ids of `t` are read off the tables `tm`, `sm`" means, row by row -/
 structure EncodedBy (tm : TMap) (sm : SMap) (t : Screen) : Prop where
   treat : ∀ r c, r < t.size → c < t.arity →
